@@ -600,6 +600,13 @@ func runHistory(x *h.Ctx, c Case) string {
 		x.Discard("wall-clock guard")
 		return ""
 	}
+	if strings.Contains(o.stderr, "WaitDelay expired") {
+		// goawk gives the goroutines copying a child's output 250 ms after the child has exited; on a
+		// saturated machine that grace period can expire (system()/close() then report -1). Time is
+		// not a correctness signal here: such a run is not judged.
+		x.Discard("goawk's 250 ms I/O grace period expired (machine too busy)")
+		return ""
+	}
 	if msg := judge(c, m, o); msg != "" {
 		return msg + "\n" + describe(c, m, o)
 	}
